@@ -218,10 +218,12 @@ def check_rect(c):
             r_max = min(n, r + dmax) if dmax is not None else n
             bad = (dmin < 0) or (r_min > r_max)
             got = None
+            e0, k0 = [(1.05, 10), (1.01, 100), (2.0, 1), (1.05, 0)][(len(drs) + (dmin + 3) * 7 + (0 if dmax is None else dmax)) % 4]
+            case = dict(case, e0=e0, k0=k0)
             try:
                 with warnings.catch_warnings():
                     warnings.simplefilter('ignore')
-                    I, B = teneva.maxvol_rect(A, e, dmin, dmax)
+                    I, B = teneva.maxvol_rect(A, e, dmin, dmax, e0, k0)
             except ValueError:
                 got = 'ValueError'
             except Exception as ex:
